@@ -42,9 +42,9 @@ CHECKS = {
  "C06": ("V", "model_checking", V + "; event-level enumeration of caller / disk / origin / cancel orderings",
    "2-3 overlapping callers, held origins resolving ok/err, one injected disk read error, fetch-task cancellation, caller drop, concurrent insert/remove; memory-only x algorithms and hybrid x policies.",
    "Deviation-bounded (2 quick / 3 thorough) around ClientFirst and Eager schedules; disk-lookup throttling not injected here.", "DESIGN.md 4 C06"),
- "C11": ("V", "model_checking", V + "; orderings of fetch start / insert / origin resolution",
-   "Held fetches (1-2 callers + lookup-only waiter), one or two explicit inserts, later lookups; memory-only x five algorithms and hybrid x policies; deviation bound 2 (quick) / 4 (thorough).",
-   "The premise 'while waiting on its origin' is evaluated at task-poll granularity.", "DESIGN.md 4 C11"),
+ "C11": ("V+T", "model_checking", V + "; orderings of fetch start / insert / origin resolution; plus preemption-bounded thread interleavings of get_or_fetch vs insert on the memory cache (Engine T)",
+   "Held fetches (1-2 callers + lookup-only waiter), one or two explicit inserts, later lookups; memory-only x five algorithms and hybrid x policies; deviation bound 2 (quick) / 4 (thorough); thread part: get_or_fetch vs insert(s)/remove on one key, five algorithms, <=2 (3) preemptions at lock granularity.",
+   "Hybrid cache: the premise 'while waiting on its origin' is evaluated at task-poll granularity; thread granularity is explored on the memory cache only.", "DESIGN.md 4 C11"),
  "C12": ("V", "model_checking", V + "; write-policy table P evaluated on the IO log decoded by the independent format reader D",
    "All histories of <=3 (4) calls over insert(Default/InMem/OnDisk)/get/get_or_fetch/fill/close x policies x flush_on_close x admission.",
    "No block is near reclaim (entries loaded from disk are never 'old'); wall-clock throttling is not driven.", "DESIGN.md 4 C12"),
@@ -91,7 +91,7 @@ manifest = {
     "engines": [
         {"name": "S", "path": "harness/checks/src/seq.rs", "serves_properties": ["C05", "C13", "C14", "C16", "C17", "C18"], "kind_free_text": "exhaustive operation sequences + explicit-state BFS on the real in-memory cache, lock-step with a reference ledger / reference algorithms"},
         {"name": "V", "path": "harness/checks/src/hyb.rs", "serves_properties": ["C01", "C06", "C07", "C09", "C10", "C11", "C12", "C15", "C16", "C17"], "kind_free_text": "deviation-bounded stateless exploration of the real hybrid cache: vrt (madsim-tokio substitute) owns task polling, simio owns device IO completion/failure, the client program owns call timing"},
-        {"name": "T", "path": "harness/checks/src/props_c02.rs + harness/plshim", "serves_properties": ["C02", "C13", "C16", "C18"], "kind_free_text": "preemption-bounded exploration of OS-thread interleavings: plshim (parking_lot substitute) turns every lock operation into a scheduling point of a cooperative scheduler"},
+        {"name": "T", "path": "harness/checks/src/props_c02.rs + harness/plshim", "serves_properties": ["C02", "C11", "C13", "C16", "C18"], "kind_free_text": "preemption-bounded exploration of OS-thread interleavings: plshim (parking_lot substitute) turns every lock operation into a scheduling point of a cooperative scheduler"},
         {"name": "F/K", "path": "harness/checks/src/props_c03.rs, props_c04.rs", "serves_properties": ["C03", "C04"], "kind_free_text": "fault / crash enumerators over images and IO logs produced by Engine V, evaluated by real recovery"},
         {"name": "core", "path": "harness/vcore", "serves_properties": sorted(done), "kind_free_text": "iterative deviation bounding, replay files, evidence, known findings, process sharding"},
     ],
